@@ -359,13 +359,23 @@ def finish_dir(ctx, out, label):
     return found
 
 
-def run_scenarios(ctx, scs, label, perfile=20):
-    """Execute given scenarios (e.g. lifted from TLC behaviours) and validate their traces."""
+def run_scenarios(ctx, scs, label, perfile=20, shards=1):
+    """Execute given scenarios (e.g. lifted from TLC behaviours) and validate their traces.
+    shards > 1 runs several executor processes side by side (schedules with waits)."""
     out = ctx.sub("sc-" + label)
-    src = os.path.join(out, "all.json")
-    with open(src, "w") as f:
-        json.dump(scs, f)
-    run_icex(ctx, ["runfile", src, out, label, perfile])
+    shards = max(1, min(shards, len(scs)))
+    jobs = []
+    for k in range(shards):
+        part = scs[k::shards]
+        src = os.path.join(out, "in-%d.json" % k)
+        with open(src, "w") as f:
+            json.dump(part, f)
+        jobs.append(["runfile", src, out, "%s%d" % (label, k), perfile])
+    if shards == 1:
+        run_icex(ctx, jobs[0])
+    else:
+        with cf.ThreadPoolExecutor(max_workers=NCPU) as ex:
+            list(ex.map(lambda j: run_icex(ctx, j), jobs))
     return finish_dir(ctx, out, label)
 
 
